@@ -241,16 +241,54 @@ def gen_cond_etags(rng, current):
         return rng.choice([', ', ',']).join(l)
     if r < 0.92:
         return rng.choice(['*, ', '']) + other_etag(rng, current) + rng.choice([', *', ''])
-    if r < 0.96:
+    if r < 0.94:
         return ' ' + cur + ' '
+    if r < 0.97:                                                      # parameters: the element is no longer the tag
+        return rng.choice([cur + ';q=1', cur + '; a="b"', '%s, %s;x=y' % (other_etag(rng, current), cur),
+                           '%s;x=y, %s' % (cur, cur), '*;q=1', cur + ';', cur + ';noeq'])
     return rng.choice(['', '""', '"', 'W/', ',', cur + ',', cur.strip('"')])
 
 
+PARAM_NAMES = ['q', 'a', 'Q', 'Ab', 'x-y', 'n1', '', ' k ', 'K', 'a']
+PARAM_VALUES = ['1', '0.5', 'v', '"v"', '"a b"', '"a;b"', '"a,b"', '"a\\"b"', '"a\\\\b"', '"', '""', '"x', 'x"', ' v ', '',
+                '"\\\\"', '"\\"', 'a=b', '"a"b"', '\\"']
+
+
+def gen_param(rng):
+    r = rng.random()
+    if r < 0.80:
+        return rng.choice(PARAM_NAMES) + rng.choice(['=', '=', ' = ', '= ']) + rng.choice(PARAM_VALUES)
+    if r < 0.90:
+        return rng.choice(['noequals', '', ' ', 'q', '"q"'])                    # a piece without '=' is dropped
+    return rng.choice(PARAM_NAMES) + '=' + gen_etag(rng)
+
+
+def with_params(rng, tag):
+    n = rng.choice([1, 1, 2, 3])
+    sep = rng.choice([';', ';', '; ', ' ;', ';;'])
+    return tag + ''.join(sep + gen_param(rng) for _ in range(n))
+
+
 def gen_elements_value(rng):
+    """An If-Match / If-None-Match value for the element parser: entity-tag lists, and the same with
+    parameters (quoted values, escapes, repeated names, pieces without '='), semicolons and commas inside
+    quotes, repeated values (the sort is stable), stray quotes."""
     r = rng.random()
     if r < 0.05:
-        return rng.choice([None, '', '*', ' * ', ',', '"a,b"', '"a,b","c"', '"a"b"', '"a",,"b"'])
-    return gen_cond_etags(rng, gen_etag(rng) if rng.random() < 0.8 else None)
+        return rng.choice([None, '', '*', ' * ', ',', '"a,b"', '"a,b","c"', '"a"b"', '"a",,"b"', ';', ';a=b', '*;q=1',
+                           '"a;b"', '"a\\";b=c', '"x";a=1;a=2', '"x";A=1;a=2', 'b;p=1, a;p=2, b;p=3, a;p=4',
+                           '"x" ; q = "1"', ';;', '"a";', '"a";=', '"a";=b'])
+    if r < 0.55:
+        return gen_cond_etags(rng, gen_etag(rng) if rng.random() < 0.8 else None)
+    # lists with parameters; values repeat so that the stable order matters
+    pool = [gen_etag(rng) for _ in range(rng.randint(1, 3))]
+    els = []
+    for _ in range(rng.randint(1, 5)):
+        t = rng.choice(pool)
+        if rng.random() < 0.6:
+            t = with_params(rng, t)
+        els.append(rng.choice(['', ' ', '\t']) + t + rng.choice(['', ' ']))
+    return ','.join(els)
 
 
 def gen_cond_date(rng, mtime_text, mtime):
